@@ -1,0 +1,23 @@
+//! Anchor store probes (anchor_store.rs): read-only snapshots of the thread-local `AnchorState`,
+//! to be called from inside a `Deserialize` impl of the harness (a probe leaf type).
+
+/// Snapshot of the thread-local anchor state at the moment of the call.
+#[derive(Clone, Debug, PartialEq, Eq)]
+pub struct Snapshot {
+    /// context stack, outermost first; kind codes 0 = Rc, 1 = Arc, 2 = RcRecursive, 3 = ArcRecursive
+    pub stack: Vec<(u8, usize)>,
+    /// in-progress counters `(kind, id, count)`, sorted
+    pub in_progress: Vec<(u8, usize, usize)>,
+    /// keys of the four pointer stores `(kind, id)`, sorted
+    pub stored: Vec<(u8, usize)>,
+}
+
+pub fn snapshot() -> Snapshot {
+    let (stack, in_progress, stored) = crate::anchor_store::verif_snapshot();
+    Snapshot { stack, in_progress, stored }
+}
+
+/// `recursive_anchor_in_progress(id)` as the event pump sees it.
+pub fn recursive_anchor_in_progress(id: usize) -> bool {
+    crate::anchor_store::recursive_anchor_in_progress(id)
+}
